@@ -1065,6 +1065,8 @@ func genC07(g *Gen, tier string, emit func(op string, args ...string)) {
 	for _, n := range []int{2, 2, 3, 4, 8, 16} {
 		emit("downs", itoa(n))
 	}
+	// a Serve call that is refused (no Handler / no SecretSource) leaves nothing behind: Shutdown returns nil
+	emit("nilcfg", "-")
 	// "no data race": the clean-ups of handlers that return at the same instant
 	for _, n := range []int{4, 16, 48} {
 		emit("finishes", itoa(n))
